@@ -1,9 +1,12 @@
 package checks
 
 import (
+	"errors"
 	"fmt"
 	"math/rand"
+	"os"
 	"sort"
+	"strings"
 	"time"
 
 	"github.com/hashicorp/raft"
@@ -120,6 +123,162 @@ func c13Pinning(c *evid.Ctx) {
 				if len(extra) > 0 || len(missing) > 0 {
 					c.Violation("C13:files-remain-after-delete:"+kind+":pinned="+fmt.Sprint(point != ""),
 						fmt.Sprintf("after DeleteRange(%d,%d) returned and the reader (parked at %q) finished, the directory differs from the metadata: extra %v missing %v", min, max, point, extra, missing), replay)
+				}
+				drv.CloseWAL(w)
+			}
+		}
+	}
+}
+
+// c13CreateFault implements simfs.Hook: the next Create fails, either before its effect
+// (no file) or after it (the file exists but the caller is told it failed).
+type c13CreateFault struct {
+	armed  bool
+	after  bool
+	fired  int
+	create []string // names passed to Create, in order
+}
+
+func (h *c13CreateFault) Pre(d *simfs.Disk, cl simfs.Call) error {
+	if cl.Kind == simfs.KCreate {
+		h.create = append(h.create, cl.Name)
+		if h.armed && !h.after {
+			h.armed = false
+			h.fired++
+			return simfs.ErrInjected
+		}
+	}
+	return nil
+}
+func (h *c13CreateFault) Mid(d *simfs.Disk, cl simfs.Call) {}
+func (h *c13CreateFault) Post(d *simfs.Disk, cl simfs.Call) error {
+	if cl.Kind == simfs.KCreate && h.armed && h.after {
+		h.armed = false
+		h.fired++
+		return simfs.ErrInjected
+	}
+	return nil
+}
+
+// c13FailedCreate: a segment-creating transaction (delete-all, base-index reset, tail
+// truncation, rotation) whose Create fails - leaving or not leaving the file behind -
+// is retried in the same process. No name may ever be passed to Create twice in the
+// lifetime of the directory, the online identity monitor must stay silent, the retry
+// must not collide with a leftover file, and after a reopen the directory must equal
+// the committed metadata.
+func c13FailedCreate(c *evid.Ctx) {
+	for _, kind := range []string{"delete-all", "delete-tail", "reset", "rotate"} {
+		for _, after := range []bool{true, false} {
+			for _, retries := range []int{1, 2} {
+				rng := rand.New(rand.NewSource(c.Seed*131 + int64(len(kind)) + int64(retries)))
+				disk := simfs.New(simfs.Strict)
+				h := &c13CreateFault{after: after}
+				disk.SetHook(h)
+				w, err := drv.OpenSim(disk, drv.Cfg{SegSize: 300})
+				if err != nil {
+					c.Violation("C13:open", err.Error(), nil)
+					return
+				}
+				replay := map[string]any{"kind": kind, "file_left_behind": after, "retries": retries}
+				idx := uint64(1)
+				app := func(n int) error {
+					var logs []*raft.Log
+					for i := 0; i < n; i++ {
+						logs = append(logs, gen.Entry(rng, idx+uint64(i), "f", 60))
+					}
+					rr := drv.Apply(w, gen.Op{Kind: "append", Logs: logs})
+					if rr.Err == nil {
+						idx += uint64(n)
+					}
+					return rr.Err
+				}
+				if kind != "reset" {
+					for b := 0; b < 5; b++ {
+						if err := app(2); err != nil {
+							c.Violation("C13:append", err.Error(), replay)
+						}
+					}
+				}
+				op := func() error {
+					switch kind {
+					case "delete-all":
+						return w.DeleteRange(1, idx-1)
+					case "delete-tail":
+						err := w.DeleteRange(4, idx-1)
+						if err == nil {
+							idx = 4
+						}
+						return err
+					case "reset":
+						// first append of an empty log at another index re-creates the first segment
+						idx = 500
+						return app(1)
+					default:
+						// an append that fills the tail: the rotation runs in the background
+						err := app(3)
+						hooks.WaitRotation(w, drv.Watchdog)
+						return err
+					}
+				}
+				for r := 0; r < retries; r++ {
+					h.armed = true
+					op() // the failing attempt; whether the call itself reports the error depends on the path
+					hooks.WaitRotation(w, drv.Watchdog)
+				}
+				h.armed = false
+				var retryErr error
+				if kind == "rotate" {
+					retryErr = app(3)
+					hooks.WaitRotation(w, drv.Watchdog)
+					if retryErr == nil {
+						retryErr = app(3)
+						hooks.WaitRotation(w, drv.Watchdog)
+					}
+				} else {
+					retryErr = op()
+					if retryErr == nil {
+						retryErr = app(2)
+					}
+				}
+				c.Count("failed_create_scripts", 1)
+				c.Count("images", 1)
+				c.Distinct("c13_nontrivial", fmt.Sprintf("failed-create|%s|left=%v|fired=%d", kind, after, h.fired))
+				seen := map[string]int{}
+				for _, n := range h.create {
+					seen[n]++
+					if seen[n] == 2 {
+						c.Violation("C13:file-name-reused:"+kind, fmt.Sprintf("segment file name %s was passed to Create twice in the lifetime of the directory (after a failed %s, file left behind: %v)", n, kind, after), replay)
+					}
+				}
+				for _, v := range disk.IDViolations {
+					c.Violation("C13:id-rule:"+kind, "segment identity rule broken after a failed Create: "+v, replay)
+				}
+				if retryErr != nil {
+					c.Count("retries_refused_for_another_reason", 1) // e.g. a tail left sealed by a failed rotation refuses appends until reopened
+				}
+				if retryErr != nil && h.fired > 0 && (errors.Is(retryErr, os.ErrExist) || strings.Contains(retryErr.Error(), "exist")) {
+					c.Violation("C13:retry-after-failed-create:"+kind, fmt.Sprintf("after a failed Create (file left behind: %v) the retried %s collided with an existing file: %v", after, kind, retryErr), replay)
+				}
+				drv.CloseWAL(w)
+				disk.SetHook(nil)
+				w, err = drv.OpenSim(disk, drv.Cfg{SegSize: 300})
+				if err != nil {
+					c.Violation("C13:reopen-after-failed-create:"+kind, err.Error(), replay)
+					continue
+				}
+				want := map[string]bool{}
+				for _, s := range disk.MetaSnapshot().State.Segments {
+					want[segment.FileName(s)] = true
+				}
+				var extra []string
+				for _, n := range disk.List() {
+					if !want[n] {
+						extra = append(extra, n)
+					}
+					delete(want, n)
+				}
+				if len(extra) > 0 || len(want) > 0 {
+					c.Violation("C13:listing-after-failed-create:"+kind, fmt.Sprintf("after a failed Create, retry and reopen the directory differs from the metadata: extra %v, %d missing", extra, len(want)), replay)
 				}
 				drv.CloseWAL(w)
 			}
